@@ -4,7 +4,7 @@
    decided by the nested-versus-stand-alone suite on the implementation and by the correspondence. *)
 From Coq Require Import List.
 Import ListNotations.
-Require Import BT.Num BT.Base BT.Records BT.Engine BT.Ops BT.Algos BT.Proofs.PaperProofs.
+Require Import BT.Num BT.Base BT.Records BT.Engine BT.Ops BT.Algos BT.Proofs.PaperProofs BT.Proofs.IdemTree.
 
 Theorem C09_paper_starts_as_standalone_partial : forall N d ip comm pfi id fi (a : astate N) kids g ns lz p st,
   build_node d ip comm false pfi (SpStrat id fi a kids) = Ok (NStrat g ns lz (Some (p, st))) ->
@@ -21,3 +21,29 @@ Theorem C09_paper_step_is_backtest_step_partial : forall N (e : env N) (l i : na
        (fun p3 => refresh (bt_paper_step e l) p3).
 Proof. exact paper_step_is_backtest_step. Qed.
 Print Assumptions C09_paper_step_is_backtest_step_partial.
+
+(* once the first update of a date flags the copy bankrupt, its stack is not run and it is not updated again on that
+   date: the copy stops where a stand-alone backtest stops (Backtest.run's "if not self.strategy.bankrupt") *)
+Theorem C09_bankrupt_paper_stops_like_a_backtest : forall N (e : env N) (l i : nat) (p p1 : tree N (astate N)),
+  root_update (bt_paper_step e l) (Some i) p = Ok p1 ->
+  (match fst p1 with NStrat g _ _ _ => g_bankrupt g = true | NSec _ => False end) ->
+  bt_paper_step e (S l) (Some i) p = refresh (bt_paper_step e l) p1.
+Proof. exact paper_step_when_bankrupt. Qed.
+Print Assumptions C09_bankrupt_paper_stops_like_a_backtest.
+
+(* what the parent records for the child is the copy's price: the child's price and its price row of the date *)
+Theorem C09_child_price_is_paper_price : forall (N : num) (A : Type) ps date inow np (g g' : strat N A) kids paper paper',
+  strat_finish ps date inow np g kids paper = Ok (g', paper') ->
+  g_paper_trade g = true ->
+  exists p', paper' = Some p' /\ g_price g' = root_price p' /\
+             ((inow < length (hg_prices g))%nat -> nth inow (hg_prices g') (n0 N) = root_price p').
+Proof. exact child_price_is_paper_price. Qed.
+Print Assumptions C09_child_price_is_paper_price.
+
+(* ... and that price is what the parent publishes in its universe column for the child (sibling names unique) *)
+Theorem C09_universe_column_is_child_price : forall (A : Type) inow (ks : list (node RNumI A)) u (gk : strat RNumI A) kk lz pp col,
+  In (NStrat gk kk lz pp) ks -> NoDup (map (@node_id RNumI A) ks) ->
+  In (g_id gk, col) u -> (inow < length col)%nat ->
+  exists col', In (g_id gk, col') (write_ucols inow ks u) /\ nth inow col' None = Some (g_price gk).
+Proof. exact universe_column_is_child_price. Qed.
+Print Assumptions C09_universe_column_is_child_price.
